@@ -85,6 +85,11 @@ def tangentProj (J : Matrix (Fin n) (Fin n) K) (X : Matrix (Fin 2) (Fin n) K) :
     Matrix (Fin 2) (Fin n) K :=
   tanMix (bil J (X 1) (X 0) / bil J (X 0) (X 0)) X
 
+/-- `utils.normalize(x, F)` on one vector: divide by `√|⟨x,x⟩_F|` where that is non-zero
+(`rabs = √|·|` supplied) -/
+def normalizeRowF [DecidableEq K] (rabs : K → K) (F : Matrix (Fin n) (Fin n) K) (x : Fin n → K) : Fin n → K :=
+  if rabs (bil F x x) = 0 then x else fun c => x c / rabs (bil F x x)
+
 /-- projective equality of two rows: equal up to a non-zero scalar -/
 def ProjEq (x y : Fin n → K) : Prop := ∃ c : K, c ≠ 0 ∧ x = c • y
 
